@@ -150,6 +150,10 @@ def install_stubs(it):
             return SBytes(b.items, False)
         if isinstance(b, LBytes):
             return b.copy(mutable=False)
+        if isinstance(b, (I.SList, tuple)):
+            return SBytes([interp.models.check_byte(interp, x) for x in interp.iterate(b)], False)
+        if b is None:
+            interp.ctx.raise_builtin(TypeError, "cannot convert 'NoneType' object to bytes")
         raise Unsupported("snapshot of %r" % (b,))
     it.stubs.update({("env.rt", "emit"): emit, ("env.rt", "choose_int"): choose_int,
                      ("env.rt", "choose_bool"): choose_bool, ("env.rt", "choose_bytes"): choose_bytes,
